@@ -140,6 +140,11 @@ class Scenario(object):
                 return "run"
             if o[0] == "flag":
                 return "flag%d" % int(bool(o[1]))
+            if o[0] == "copy":      # the program is replaced by copy.deepcopy(program); the original is dropped
+                return "copy"
+            if o[0] == "addobj":    # like add, but references are given as the Command objects themselves
+                res, cmd, args = o[1]
+                return "add " + prog.enc_node(res, cmd, [(n, raw_of(v), None) for n, v in args], None)
             if o[0] == "add":       # Program.add_command(cls, result_name, {name: raw value}) through the API: no line numbers
                 res, cmd, args = o[1]
                 return "add " + prog.enc_node(res, cmd, [(n, raw_of(v), None) for n, v in args], None)
@@ -278,6 +283,24 @@ def run_impl(sc, recursion_limit=None):
                             r_, c_, a_ = op[1]
                             from collections import OrderedDict
                             p.add_command(p.find_command_class(c_), r_, OrderedDict((n, raw_of(v)) for n, v in a_))
+                        elif op[0] == "addobj":
+                            r_, c_, a_ = op[1]
+                            from collections import OrderedDict
+
+                            def obj(v):
+                                if isinstance(v, Name) and v.s in p.commands:
+                                    return p.commands[v.s]
+                                if isinstance(v, list):
+                                    return [obj(x) for x in v]
+                                return raw_of(v)
+                            p.add_command(p.find_command_class(c_), r_, OrderedDict((n, obj(v)) for n, v in a_))
+                        elif op[0] == "copy":
+                            import copy, gc
+                            q = copy.deepcopy(p)
+                            res["program"] = q
+                            del p
+                            gc.collect()
+                            p = q
                         else:
                             p.commands[op[1]].result
                     res["ops"].append("ok")
